@@ -19,7 +19,7 @@ def S(rules, *, explanation, decides, not_decided, assumptions, level_text, leve
 
 PROPS = {
     "C01": S(
-        version.RULES + layout.RULES + formulas.RULES + [o.opc3_prologue, o.opc3b_fillers, o.opc3c_prologue_eval, o.int_intervals, o.exi1_producers, o.join1, o.alias1, o.opc5_version_coverage, o.opc6_exit_templates, o.opc8_jump_arithmetic, o.opc10_handler_queue_order, o.opc12_block_walk_table, o.opc13_exception_path_exit, o.opc14_async_position_310, safety.snap, safety.eqkey1],
+        version.RULES + layout.RULES + formulas.RULES + [o.opc3_prologue, o.opc3b_fillers, o.opc3c_prologue_eval, o.int_intervals, o.exi1_producers, o.join1, o.alias1, o.opc5_version_coverage, o.opc6_exit_templates, o.opc8_jump_arithmetic, o.opc10_handler_queue_order, safety.run1_310, o.opc12_block_walk_table, o.opc13_exception_path_exit, o.opc14_async_position_310, safety.snap, safety.eqkey1],
         explanation="Necessary conditions of 'contexts of a suspended frame are exact on CPython 3.9-3.12', decided from source: "
                     "partial evaluation of every sys.version_info branch over the four supported interpreters (every strict opcode lookup names an opcode that exists where it is reachable; "
                     "the ctypes module selected for V is one whose asserts hold for V; version-conditional names are bound wherever they are used); "
@@ -145,7 +145,7 @@ PROPS = {
         design_ref="DESIGN.md section 4, C16",
     ),
     "C06": S(
-        safety.C06 + [safety.snap, safety.snap8, o.alias1, o.exi1_producers, fmt.mode_rules, e.opt1, e.truth2, safety.idkey1, safety.eqkey1] + layout.RULES + formulas.RULES,
+        safety.C06 + [safety.snap, safety.snap8, safety.run1_310, o.alias1, o.exi1_producers, fmt.mode_rules, e.opt1, e.truth2, safety.idkey1, safety.eqkey1] + layout.RULES + formulas.RULES,
         explanation="Structural clauses of 'extraction is a pure observation': (ESC-1) in every function that can run during an extraction, every store into persistent state (globals, module-level containers and objects, "
                     "mutable defaults, thread-local state, closure cells of registered hooks, memoising decorators) is enumerated and its stored value must not be derived from a target (value-provenance propagation with id/len/repr/type/code-object sanitisers); "
                     "(ESC-2) no send/throw/close/asend/athrow/aclose/__next__/next() on anything the package did not create itself, and unwrap results are iterated only as FrameIterator/Sequence; "
